@@ -439,7 +439,7 @@ def run(ctx):
     ]
     ctx.cov["partial"].append({"theorem": "C12_bound_legacy_partial / C12_bound_current",
                                "excluded": "under the legacy rule: bounds that are resolved identifiers (constants, attributes, derived attributes) — there the output does depend on an address (C12_bound_legacy_witness)"})
-    ctx.lean("StepModel.Props.C12", exes=["m_c12"], extractors=["genbound", "scanner", "exphash"])
+    ctx.lean("StepModel.Props.C12", exes=["m_c12"], extractors=["genbound", "scanner", "exphash", "refout"])
     b = ctx.build("plain")
     model_exe = ctx.model_exe("m_c12")
     if not os.path.exists(model_exe):
@@ -469,6 +469,20 @@ def run(ctx):
         mf = g.schema_file(nschemas=2 + j % 2)
         ctx.hist("features", "multi-schema (fixed share)")
         examine(ctx, b, f"multi-schema-{ctx.seed}-{j}", mf.text(), None, cfgs, idx, gen_file=mf, model_exe=model_exe); idx += 1
+    # item-wise USE FROM s (…) / REFERENCE FROM s (…) from 2–5 supplier schemas, with and without AS renames: exppp groups the
+    # clauses by supplier in a temporary dictionary — the group order must be a function of the schema names only.  Every
+    # configuration with ASLR on is another heap layout (quick: 10 such runs + 1 under setarch -R per tool).
+    shapes = [(3, 4, True), (2, 2, False)] if quick else [(3, 4, True), (2, 2, False), (5, 0, True), (0, 5, True), (2, 3, True), (4, 4, False)]
+    for j, (nu, nr, ren) in enumerate(shapes):
+        itf = SG.item_interfaces_file(nu, nr, ren)
+        ctx.hist("features", "item-wise USE/REFERENCE from several suppliers")
+        examine(ctx, b, f"item-wise-interfaces-{nu}use-{nr}ref{'-renamed' if ren else ''}", itf.text(), None, cfgs, idx); idx += 1
+    if not quick:
+        for j in range(6):
+            r = ctx.rng
+            nm = r.sample(["alpha", "beta", "gamma", "delta", "kappa", "omega", "sigma", "theta", "zeta", "lambda_s"], 6)
+            itf = SG.item_interfaces_file(r.randint(2, 3), r.randint(2, 3), r.random() < 0.5, names=[f"{x}_supplier" for x in nm])
+            examine(ctx, b, f"item-wise-interfaces-random-{j}", itf.text(), None, cfgs, idx); idx += 1
     n_gen = 8 if quick else 100
     for i in range(n_gen):
         r = ctx.rng
@@ -500,7 +514,7 @@ def replay(ctx, path):
     d = json.load(open(path))
     r = d.get("replay", d)
     ctx._disagree = []
-    ctx.lean("StepModel.Props.C12", exes=["m_c12"], extractors=["genbound", "scanner", "exphash"])
+    ctx.lean("StepModel.Props.C12", exes=["m_c12"], extractors=["genbound", "scanner", "exphash", "refout"])
     b = ctx.build("plain")
     if "alone" in r:
         root = os.path.join(ctx.work, "alone-replay")
